@@ -3,7 +3,7 @@ import vlib, common
 RULE = ("logs of 1..30 (quick) / ..100 events: every event queried at its reported version, a random later version, the current version and a version beyond it; each answer marshalled to JSON and back, "
         "fields compared, and the decoded proof verified against the right and three wrong (digest, snapshot) combinations vs the original object; 3n incremental answers likewise; every snapshot and a signed batch "
         "through Encode/Decode; gossip messages encoded back-to-back then decoded; 400 synthetic audit-path keys with indexes up to 2^63-1 through Serialize/ParseAuditPath and through the Coq codec. "
-        "distinct = (kind, case, indices); non-trivial = existence answer / multi-entry path / index >= 2^32 / non-empty payload")
+        "clientv: genuine membership/incremental/insertion answers of logs up to >1040 events and bulks up to 1000 snapshots through the real client (HTTP body, JSON, To*Proof) must verify / come back unchanged. distinct = (kind, case, indices); non-trivial = existence answer / multi-entry path / index >= 2^32 / non-empty payload")
 
 
 def run(v, tier, seed, replay):
@@ -19,6 +19,7 @@ def run(v, tier, seed, replay):
                         dict(kind="correspondence", theorem="C13_auditpath_roundtrip / C13_membership_verdict_preserved", mismatches=mism, seed=seed, tier=tier), no_input=True)
     finally:
         s.cleanup()
+    common.client_entry_points(v, "C13", tier, seed, ('C13',))
     v.coverage["trusted_base"] = vlib.TRUSTED_COMMON + [
         "Coq's DecimalString/DecimalN library lemmas for the decimal codec; strconv.Atoi and fmt %d are modelled by it and compared on 400 keys per run",
         "encoding/json, go-msgpack (gossip messages) and base64 are third-party codecs: exercised by round trips, not modelled",
